@@ -383,7 +383,8 @@ def run_property(prop, tier, seed, root):
           "assumptions": trusted + cfg.get("assumptions", []), "wall_s": round(wall, 2), "violations": len(violations)}
     # evidence of runs against another tree (VERIF_REPO=<scratch copy>, mutation testing) must not
     # overwrite the evidence of the registered check on /repo
-    evdir = os.path.join(HERE, "evidence") if os.path.realpath(root) == "/repo" else os.path.join(HERE, "evidence", ".scratch")
+    evdir = os.path.join(HERE, "evidence") if os.path.realpath(root) == "/repo" and not os.environ.get("VERIF_SCRATCH_EVIDENCE") \
+        else os.path.join(HERE, "evidence", ".scratch")      # exploratory runs (scratch trees, seed sweeps) do not touch the committed evidence
     os.makedirs(evdir, exist_ok=True)
     with open(os.path.join(evdir, f"{prop}.json"), "w") as fh:
         json.dump(ev, fh, indent=1, default=str)
